@@ -2217,8 +2217,8 @@ func (r *Resolvable) renderInaccessibleEnumValueError(e *Enum) {
 	defer pool.BytesBuffer.Put(buf)
 	_, _ = buf.WriteString("Invalid value found for ")
 	pathLength := len(r.path)
-	// The enum is an array element
-	if pathLength > 1 && r.path[pathLength-1].Name == "" {
+	// The enum is an array element (an enum field of an object that is an array element has a path of its own)
+	if len(e.Path) == 0 && pathLength > 1 && r.path[pathLength-1].Name == "" {
 		r.writeArrayElementToBuffer(buf, e.TypeName)
 		if r.options.ApolloCompatibilityValueCompletionInExtensions {
 			r.addValueCompletion(buf.String(), errorcodes.InvalidGraphql)
